@@ -982,3 +982,18 @@ B('C12', 'limit located first, position tested by truth value', BASIC,
 N('C12', 'limit located first, position tested with is None', BASIC,
   "    found_limit = False\n    for item in content:\n        if limit and item.ty == limit[0] and item.name == limit[1]:\n            found_limit = True\n            break\n\n        if item.error is None:\n            theory.thy.unchecked_extend(item.get_extension())\n\n    if limit and not found_limit:\n        raise TheoryException(\"load_theory: limit %s not found\" % str(limit))\n",
   "    end = None\n    if limit:\n        for index, item in enumerate(content):\n            if item.ty == limit[0] and item.name == limit[1]:\n                end = index\n                break\n        else:\n            raise TheoryException(\"load_theory: limit %s not found\" % str(limit))\n\n    for item in (content[:end] if end is not None else content):\n        if item.error is None:\n            theory.thy.unchecked_extend(item.get_extension())\n")
+N('C18', 'gen_and tests the second term first', VM,
+  "    if t1.is_forall() and t2.is_forall():\n        v1, body1 = t1.arg.dest_abs()", "    if t2.is_forall() and t1.is_forall():\n        v1, body1 = t1.arg.dest_abs()")
+B('C18', 'gen_or also moves a disjunction under a universal quantifier', VM,
+  "    if t1.is_exists() and t2.is_exists():\n        v1, body1 = t1.arg.dest_abs()\n        v2, body2 = t2.arg.dest_abs()\n        if v1 == v2:\n            return Exists(v1, gen_or(body1, body2))",
+  "    if t1.is_forall() and t2.is_forall():\n        v1, body1 = t1.arg.dest_abs()\n        v2, body2 = t2.arg.dest_abs()\n        if v1 == v2:\n            return Forall(v1, gen_or(body1, body2))", 'C18.R22', 'gen_or')
+N('C20', 'HOL form of >= written with the operands in order', IEXPR,
+  "            elif self.op == \">=\":\n                return e2 <= e1", "            elif self.op == \">=\":\n                return e1 >= e2")
+B('C20', 'HOL form of > with the operands exchanged', IEXPR,
+  "            elif self.op == \">\":\n                return e2 < e1", "            elif self.op == \">\":\n                return e1 < e2", 'C20.P7', 'case(>)')
+N('C15', 'conflict clause copied before the analysis', SATF,
+  "        clause = cnf[clause_id]\n        proof = [clause_id]", "        proof = [clause_id]\n        clause = cnf[clause_id]")
+N('C17', 'explanation chain stored through a local', CONGC,
+  "        res[(s, t)] = cur_path\n        return res", "        chain = cur_path\n        res[(s, t)] = chain\n        return res")
+N('C06', 'names to avoid collected with a loop', 'prover/z3wrapper.py',
+  "    var_names = [v.name for v in term.get_vars(As + [C])]", "    var_names = []\n    for v in term.get_vars(As + [C]):\n        var_names.append(v.name)")
